@@ -27,6 +27,7 @@ type LoopSpec struct {
 	Invs     []*Clause
 	Modifies []*Clause // extra havoc locations
 	Steps    []*Clause // obligations at the back edge about one iteration (counters reset at the head)
+	Soft     bool      // Invs are inferred candidates (houdini.go), one conjunct per clause, Label = candidate key
 }
 
 type FuncSpec struct {
